@@ -267,7 +267,11 @@ func cmdCheck(args []string) int {
 				fmt.Printf("KNOWN-FINDING: property=%s %s\n", *prop, kf.Text)
 				continue
 			}
-			if baseline[o.Name] {
+			if o.Status == "error" {
+				// every solver rejected the query: a defect of the generator, never a property violation
+				rep.EngineErrors = append(rep.EngineErrors, o.Name)
+				rep.Unproved = append(rep.Unproved, o)
+			} else if baseline[o.Name] {
 				rep.Regressed = append(rep.Regressed, o)
 			} else {
 				rep.Unproved = append(rep.Unproved, o)
@@ -297,8 +301,19 @@ func cmdCheck(args []string) int {
 		fmt.Printf("VIOLATION property=%s replay=%s obligation=%s status=%s%s\n", *prop, path, o.Name, o.Status, tail)
 		exit = 1
 	}
+	for _, r := range results {
+		if r.Mismatch != "" {
+			fmt.Printf("NOTE property=%s function %s was restructured: the loop/assert clauses of its contract no longer apply (%s); it was verified without them\n", *prop, r.Name, truncate(r.Mismatch, 200))
+		}
+	}
 	for _, n := range rep.VacuityFailed {
 		fmt.Printf("UNDECIDED property=%s reason=vacuous precondition: %s\n", *prop, n)
+		if exit == 0 {
+			exit = 2
+		}
+	}
+	for _, n := range rep.EngineErrors {
+		fmt.Printf("UNDECIDED property=%s reason=all solvers rejected the query of %s (generator defect)\n", *prop, n)
 		if exit == 0 {
 			exit = 2
 		}
@@ -352,7 +367,7 @@ func cmdCheck(args []string) int {
 			fmt.Println("cannot write evidence:", err)
 		}
 	}
-	fmt.Printf("%s %s: %d obligations, %d discharged, %d refuted, %d regressed, %d unproved, %d known; %d functions; load %.1fs gen %.1fs solve %.1fs\n",
-		*prop, *tier, len(obls)-rep.VacuityProbes, len(rep.Discharged), len(rep.Refuted), len(rep.Regressed), len(rep.Unproved), len(rep.Known), len(results), loadS, genS, solveS)
+	fmt.Printf("%s %s: %d obligations, %d discharged, %d refuted, %d regressed, %d unproved, %d known; %d functions; vacuity probes %d sat/%d inconclusive/%d vacuous; load %.1fs gen %.1fs solve %.1fs\n",
+		*prop, *tier, len(obls)-rep.VacuityProbes, len(rep.Discharged), len(rep.Refuted), len(rep.Regressed), len(rep.Unproved), len(rep.Known), len(results), rep.VacuityOK, rep.VacuityInconclusive, len(rep.VacuityFailed), loadS, genS, solveS)
 	return exit
 }
